@@ -344,7 +344,12 @@ class PyvalColorizer:
             # is not relevant to annotations.
             self._output(str(pyval), self.CONST_TAG, state, link=True)
         elif pyvaltype is int or pyvaltype is float or pyvaltype is complex:
-            self._output(str(pyval), self.NUMBER_TAG, state)
+            try:
+                pyval_str = str(pyval)
+            except ValueError:
+                # Integer too large for the decimal conversion limit (Python >= 3.11).
+                pyval_str = hex(pyval)
+            self._output(pyval_str, self.NUMBER_TAG, state)
         elif pyvaltype is str:
             self._colorize_str(pyval, state, '', escape_fcn=_str_escape)
         elif pyvaltype is bytes:
